@@ -11,6 +11,8 @@ WORDS = (8, 16, 32, 64)
 def S(pid, base, fields, default=None, debug=False, name=None):
     s = Struct(name or f"S{pid}", base, fields, default=default, debug=debug)
     assert s.valid(), f"corpus declaration {pid} violates the C09 rule"
+    # lists naming a bit twice are outside the guarantees of C04: only the dedicated kselfov* layouts may have them
+    assert pid.startswith("kselfov") or pid.startswith("koverlaparr") or not any(f.self_overlap() for f in fields), f"{pid}: self-overlapping field"
     return s
 
 
@@ -382,8 +384,8 @@ def programs_builder(tier):
     progs.append(Program("bl16", enums=[e2, e1], structs=[S("bl16", 16, [
         F("e", T_enum(e2), (0, 2)),
         F("arr", T_enum(e1), (2, 1), array=(3, None)),
-        F("ro", T_u(4), (8, 4), access="r"),
-        F("s", T_i(8), [(5, 3), (12, 4), (7, 1)], access="w"),   # bits 5,6,7(last),12..15
+        F("ro", T_u(3), (9, 3), access="r"),
+        F("s", T_i(8), [(5, 2), (12, 4), (7, 2)], access="w"),   # bits 5,6 | 12..15 | 7,8
     ], default=Default(0x8F00))], props=("C13", "C14", "C17", "C16")))
     progs.append(Program("bl8", structs=[S("bl8", 8, [
         F("a", T_u(3), (0, 3)), F("b", T_bool(), (3, 1)), F("c", T_u(4), (4, 4)),
@@ -408,6 +410,63 @@ def programs_builder(tier):
     return progs
 
 
+def programs_access(tier):
+    """C17: every field kind x every access specifier"""
+    e2 = mk_enum("Eac2", 2, None, values=[0, 1, 3])
+    fields = []
+    pos = 0
+    for kind in ("u4", "bool", "arr", "nc", "enum", "i8", "optarr"):
+        for acc_ in ("r", "w", "rw", ""):
+            nm = f"{kind}_{acc_ or 'none'}"
+            if kind == "u4":
+                fields.append(F(nm, T_u(4), (pos, 4), access=acc_)); pos += 4
+            elif kind == "bool":
+                fields.append(F(nm, T_bool(), (pos, 1), access=acc_)); pos += 1
+            elif kind == "arr":
+                fields.append(F(nm, T_u(2), (pos, 2), array=(2, None), access=acc_)); pos += 4
+            elif kind == "nc":
+                fields.append(F(nm, T_u(4), [(pos, 2), (pos + 4, 2)], access=acc_)); pos += 6
+            elif kind == "enum":
+                fields.append(F(nm, T_enum(e2), (pos, 2), access=acc_)); pos += 2
+            elif kind == "i8":
+                fields.append(F(nm, T_i(8), (pos, 8), access=acc_)); pos += 8
+            elif kind == "optarr":
+                fields.append(F(nm, T_enum(e2), (pos, 2), array=(2, 3), access=acc_)); pos += 6
+    progs = [Program("ac128", enums=[e2], structs=[S("ac128", 128, fields, default=Default(0x5))], props=("C17", "C14"))]
+    # the same without default and with gaps: no builder; and an all-read-only struct
+    progs.append(Program("ac16", structs=[S("ac16", 16, [
+        F("a", T_u(4), (0, 4), access="r"), F("b", T_u(4), (4, 4), access="w"), F("c", T_u(4), (8, 4), access=""),
+        F("d", T_u(4), (12, 4), access="rw")])], props=("C17", "C14")))
+    progs.append(Program("ac8ro", structs=[S("ac8ro", 8, [
+        F("a", T_u(4), (0, 4), access="r"), F("b", T_bool(), (7, 1), access="r")], default=Default(0x81))], props=("C17", "C14")))
+    return progs
+
+
+def programs_c14(tier):
+    """C14: builder exists exactly when sound (decl names say what the rule expects)"""
+    progs = []
+
+    def add(pid, base, fields, default=None, extra=()):
+        progs.append(Program(pid, structs=[S(pid, base, fields, default=default)], props=("C14",) + tuple(extra)))
+    add("kcomplete", 8, [F("a", T_u(4), (0, 4)), F("b", T_u(4), (4, 4))])
+    add("kincomplete", 8, [F("a", T_u(4), (0, 4)), F("b", T_u(3), (4, 3))])                       # bit 7 uncovered, no default -> none
+    add("kincdef", 8, [F("a", T_u(4), (0, 4)), F("b", T_u(3), (4, 3))], Default(0x80), extra=("C13",))
+    add("koverlap", 16, [F("a", T_u(8), (0, 8)), F("b", T_u(8), (4, 8))], Default(0))             # overlapping fields -> none
+    add("koverlaparr", 16, [F("a", T_u(4), [(0, 2), (4, 2)], array=(2, 4))], Default(0))          # element 1 overlaps element 0 -> none
+    add("kselfov", 16, [F("a", T_u(8), [(0, 4), (2, 4)])], Default(0), extra=("C16",))             # self-overlapping range list -> none
+    add("kselfov2", 32, [F("a", T_u(12), [(8, 8), (12, 4)]), F("b", T_u(8), (24, 8))], Default(0), extra=("C16",))
+    add("krogap", 8, [F("a", T_u(4), (0, 4)), F("r", T_u(4), (4, 4), access="r")])                 # read-only bits uncovered, no default -> none
+    add("krogapdef", 8, [F("a", T_u(4), (0, 4)), F("r", T_u(4), (4, 4), access="r")], Default(0xA0), extra=("C13",))
+    add("karb", 12, [F("a", T_u(4), (0, 4)), F("b", T_u(8), (4, 8))], extra=("C13", "C11"))       # arbitrary base complete -> builder
+    add("karbinc", 12, [F("a", T_u(4), (0, 4)), F("b", T_u(7), (4, 7))])                            # bit 11 uncovered -> none
+    add("kwo", 8, [F("a", T_u(4), (0, 4), access="w"), F("b", T_u(4), (4, 4), access="w")], extra=("C13",))   # write-only fields complete -> builder
+    add("kinter", 8, [F("x", T_u(4), [(0, 1), (2, 1), (4, 1), (6, 1)], array=(2, 1))], extra=("C13",))        # interleaved, disjoint, complete
+    add("karrov", 16, [F("a", T_u(4), (0, 4), array=(2, None)), F("b", T_u(4), (4, 4))], Default(0))           # array element overlaps a field -> none
+    add("knowr", 8, [F("a", T_u(4), (0, 4), access="r")], Default(0x0F), extra=("C13",))           # no writable field, default -> builder().build()
+    add("kfull128", 128, [F("a", T_u(128), (0, 128))], extra=("C13",))
+    return progs
+
+
 def all_programs(tier, seed=0):
     progs = []
     progs += programs_contiguous(tier)
@@ -420,6 +479,8 @@ def all_programs(tier, seed=0):
     progs += programs_enum_fields(tier)
     progs += programs_history(tier)
     progs += programs_builder(tier)
+    progs += programs_access(tier)
+    progs += programs_c14(tier)
     ids = [p.pid for p in progs]
     assert len(ids) == len(set(ids))
     return progs
